@@ -2,7 +2,7 @@
 \* every trace incl. empty warps / blocks / kernels: the engine never goes idle with work left
 SPECIFICATION MCSpec
 CONSTANTS
-  PortCap = 4
+  PortCap = 1
   Dev = {}
   DispatchReportsProgress = FALSE
   Logging = FALSE
